@@ -476,9 +476,85 @@ fn gen_operand(g: &mut Gen, kind: char) -> String {
     }
 }
 
+/// a well-formed expression (primaries joined by optional operators, balanced parentheses) whose
+/// operands are mostly valid: such vectors get past the parser, so the panic search reaches the
+/// evaluation of every primary on the odd entries of the tree
+fn gen_wellformed(g: &mut Gen, rec: &str, depth: usize, out: &mut Vec<String>) {
+    let n = g.usize_in(1, 4);
+    for i in 0..n {
+        if i > 0 {
+            match g.below(5) {
+                0 => out.push("-o".into()),
+                1 => out.push("-a".into()),
+                2 => out.push(",".into()),
+                _ => {}
+            }
+        }
+        if g.chance(1, 6) {
+            out.push("!".into());
+        }
+        if depth > 0 && g.chance(1, 6) {
+            out.push("(".into());
+            gen_wellformed(g, rec, depth - 1, out);
+            out.push(")".into());
+            continue;
+        }
+        if g.chance(1, 8) {
+            out.push(g.pick(&["-exec", "-execdir"]).to_string());
+            out.push(g.pick(&[rec, "true", "false", "no-such-command-xyz"]).to_string());
+            for _ in 0..g.usize_in(0, 2) {
+                out.push(g.pick(&["x{}y", "é", "", "a b", "{"]).to_string());
+            }
+            if g.bool() {
+                out.push("{}".into());
+                out.push("+".into());
+            } else {
+                out.push("{}".into());
+                out.push(";".into());
+            }
+            continue;
+        }
+        let v = &VOC[g.below(VOC.len() as u64) as usize];
+        if v.name == "-files0-from" || v.name == "-newerBm" {
+            out.push("-true".into());
+            continue;
+        }
+        out.push(v.name.to_string());
+        for k in v.ops.chars() {
+            // mostly valid operands: the point is to get evaluated
+            let valid_heavy = g.chance(5, 6);
+            let mut op = gen_operand(g, k);
+            if valid_heavy {
+                for _ in 0..4 {
+                    if op.is_ascii() && !op.is_empty() {
+                        break;
+                    }
+                    op = gen_operand(g, k);
+                }
+            }
+            out.push(op);
+        }
+    }
+}
+
 fn gen_vec(g: &mut Gen) -> VecCase {
     let rec = rec_bin().to_string_lossy().into_owned();
     let mut tokens: Vec<String> = vec![];
+    if g.chance(3, 5) {
+        gen_wellformed(g, &rec, 2, &mut tokens);
+        let flags = match g.below(5) {
+            0 => vec!["-L".to_string()],
+            1 => vec!["-H".to_string()],
+            _ => vec![],
+        };
+        let roots = match g.below(6) {
+            0 => vec!["c/r".to_string(), "c/missing".to_string()],
+            1 => vec!["c/r/lnk_dir".to_string(), "c/r/odd".to_string()],
+            _ => vec!["c/r".to_string()],
+        };
+        let binary = g.chance(1, 10);
+        return VecCase { flags, roots, tokens, binary, raw_bytes_at: None };
+    }
     let n = g.usize_in(0, 8);
     for _ in 0..n {
         match g.weighted(&[12, 3, 2, 2, 1]) {
